@@ -39,6 +39,15 @@ theorem cache_sound_step (cfg : Cfg) (comt : Nat → Option Committee) (cache : 
     (hs : CacheSound cfg comt cache) (op : CacheOp) : CacheSound cfg comt (applyOp cfg comt cache op) :=
   applyOp_sound hs op
 
+/-- **The cache stays within its configured size** whatever is validated: at most `max 1 maxGroups`
+groups, each holding fewer than `max 1 maxSetSize` keys in its young and at most that many in its old
+generation (so evictions do happen, and `cache_sound_inv` / `validate_history_independent` are
+statements about caches that really rotate and evict). -/
+theorem cache_bounded (cfg : Cfg) (comt : Nat → Option Committee) (maxGroups maxSetSize : Nat)
+    (ops : List CacheOp) :
+    (runOps cfg comt (GroupedSet.new maxGroups maxSetSize) ops).bounded :=
+  runOps_bounded cfg comt ops _ (bounded_new maxGroups maxSetSize)
+
 /-- **History independence.** With any sound cache (in particular any reachable one) the verdict of
 `ValidateMessage` equals the verdict `validatePure` that is a function of the message, the committee
 function and the progress only. -/
@@ -177,6 +186,8 @@ example : validMsg cfg0.net c0 m0 := by
   exact this ▸ hv
 -- the warm cache really holds the message key, and the forged twin is still rejected after its valid twin
 example : warm0.peek 5 (CKey.msg m0) = true := by decide
+-- … while the justification key inserted just before it was already rotated out (capacity 1): an eviction happened
+example : warm0.peek 5 (CKey.just j0 (keyOf [tipA, tipB])) = false := by decide
 example : (validate cfg0 comt0 prog0 warm0 m0forged).1 = .invalid := by decide
 example : (validate cfg0 comt0 prog0 warm0 m0short).1 = .invalid := by decide
 example : (validate cfg0 comt0 ⟨7, 0, QUALITY⟩ warm0 m0).1 = .tooOld := by decide
